@@ -84,7 +84,10 @@ struct World<'a> {
     stranger: bls::SecretKey,
     foreign_keys: Vec<Vec<u8>>,
     /// held (key, type) set of each node when interval replication was last triggered
-    at_trigger: Vec<BTreeSet<(Vec<u8>, String)>>,
+    /// responsible distance range set at a node (store + fetcher), as big-endian distance bytes
+    ranges: Vec<Option<[u8; 32]>>,
+    /// a transient disk-write error is armed for the node's next first-copy write of a replicated record
+    disk_err_armed: Vec<bool>,
 }
 
 pub fn execute(plan: &Plan, entropy: u64) -> RunReport {
@@ -98,7 +101,7 @@ pub fn execute(plan: &Plan, entropy: u64) -> RunReport {
         let rewards = RewardsAddress::from([0x22u8; 20]);
         let mut hosts = vec![];
         for i in 0..plan.n_nodes as usize {
-            match NodeHost::build(i, root.join(format!("n{i}")), data::ed_key(plan.seed, i as u64), None, None, rewards) {
+            match NodeHost::build(i, root.join(format!("n{i}")), data::ed_key(plan.seed, i as u64), None, if plan.cache == 0 { None } else { Some(plan.cache) }, rewards) {
                 Ok(h) => hosts.push(h),
                 Err(e) => {
                     rep.harness_error = Some(e);
@@ -125,7 +128,8 @@ pub fn execute(plan: &Plan, entropy: u64) -> RunReport {
             reg_owners: (0..2).map(|i| data::bls_key(s, 300 + i)).collect(),
             stranger: data::bls_key(s, 401),
             foreign_keys: vec![],
-            at_trigger: vec![BTreeSet::new(); plan.n_nodes as usize],
+            ranges: vec![None; plan.n_nodes as usize],
+            disk_err_armed: vec![false; plan.n_nodes as usize],
         };
         w.run().await;
         nhooks::gates_uninstall();
@@ -251,7 +255,14 @@ impl<'a> World<'a> {
             return;
         }
         let list: BTreeSet<(Vec<u8>, String)> = keys.iter().map(|(a, t)| (a.to_record_key().to_vec(), format!("{t:?}"))).collect();
-        let snap = self.hosts[from].index_at_trigger.clone();
+        // the list was built when one of the node's trigger commands was handled; it may be sent after a later
+        // trigger has been handled, so it must equal the index as it was at one of them (newest first)
+        let snaps = self.hosts[from].index_at_triggers.clone();
+        let matching = snaps.iter().rev().find(|s| s.iter().map(|(k, t, _)| (k.clone(), t.clone())).collect::<BTreeSet<_>>() == list);
+        if matching.is_some() && !std::ptr::eq(matching.unwrap(), snaps.last().unwrap()) {
+            self.rep.probe("replicate_list_sent_after_a_later_trigger");
+        }
+        let snap = matching.cloned().unwrap_or_else(|| self.hosts[from].index_at_trigger.clone());
         let have: BTreeSet<(Vec<u8>, String)> = snap.iter().map(|(k, t, _)| (k.clone(), t.clone())).collect();
         if list != have {
             let missing = have.difference(&list).count();
@@ -329,12 +340,53 @@ impl<'a> World<'a> {
         }
         if idx < gates.len() {
             self.rep.sched.write_str(gates[idx].site);
+            let planted = self.maybe_plant_disk_error(&gates[idx]);
             nhooks::gate_open(gates[idx].id);
             self.drain().await;
+            if let Some(p) = planted {
+                // the error was transient
+                let _ = std::fs::remove_dir(&p);
+            }
         } else {
             self.deliver(idx - gates.len()).await;
         }
         true
+    }
+
+    /// A parked disk write of the FIRST copy of a record that node fetched through replication fails once
+    /// (a directory occupies the file path) when a disk error is armed for the node. Only writes whose loss
+    /// loses nothing are failed: the node does not hold the key, and another node holds the same bytes.
+    fn maybe_plant_disk_error(&mut self, g: &nhooks::GateInfo) -> Option<PathBuf> {
+        if g.site != "store.write" {
+            return None;
+        }
+        let path = PathBuf::from(g.detail.trim_matches('"'));
+        let key = hex::decode(path.file_name()?.to_str()?).ok()?;
+        let node_dir = path.parent()?.parent()?.file_name()?.to_str()?.to_string();
+        let node: usize = node_dir.strip_prefix('n')?.parse().ok()?;
+        if node >= self.hosts.len() || !self.disk_err_armed[node] {
+            return None;
+        }
+        let rk = RecordKey::new(&key);
+        if self.hosts[node].store().verif_index().iter().any(|(k, _, _)| *k == rk) {
+            return None;
+        }
+        let mine = self.read(node, &key)?;
+        let mut backed = false;
+        for a in 0..self.hosts.len() {
+            if a != node && self.hosts[a].store().verif_index().iter().any(|(k, _, _)| *k == rk) {
+                if self.read(a, &key).map(|r| r.value == mine.value).unwrap_or(false) {
+                    backed = true;
+                }
+            }
+        }
+        if !backed || std::fs::create_dir(&path).is_err() {
+            return None;
+        }
+        self.disk_err_armed[node] = false;
+        self.rep.fault("disk_write_error_on_first_replicated_copy");
+        self.rep.log(format!("n{node}: the disk write of the replicated record {} fails (transient)", hex::encode(&key[..3])));
+        Some(path)
     }
 
     /// run every parked task and timer, deliver nothing
@@ -392,6 +444,19 @@ impl<'a> World<'a> {
         let want = self.want.clone();
         for (key, w) in &want {
             for n in 0..self.hosts.len() {
+                // a node fetches (and updates) only records within its responsible range, when it has one
+                if let Some(range) = &self.ranges[n] {
+                    if data::xor_distance(&self.hosts[n].peer.to_bytes(), key) > *range {
+                        self.rep.probe("pair_out_of_the_nodes_responsible_range");
+                        continue;
+                    }
+                }
+                // held = in the node's index (what it advertises and counts), not merely served from its cache
+                let rk = RecordKey::new(key);
+                if !self.hosts[n].store().verif_index().iter().any(|(k, _, _)| *k == rk) {
+                    bad.push((n, key.clone(), "missing"));
+                    continue;
+                }
                 match self.read(n, key) {
                     None => bad.push((n, key.clone(), "missing")),
                     Some(r) => {
@@ -405,19 +470,9 @@ impl<'a> World<'a> {
         bad
     }
 
-    fn snapshot_at_trigger(&mut self, i: usize) {
-        self.at_trigger[i] = self.hosts[i]
-            .store()
-            .verif_record_addresses()
-            .into_iter()
-            .map(|(a, t)| (a.to_record_key().to_vec(), format!("{t:?}")))
-            .collect();
-    }
-
     async fn round(&mut self, label: &str) {
         for i in 0..self.hosts.len() {
             self.hosts[i].driver.verif_age(Duration::from_secs(35));
-            self.snapshot_at_trigger(i);
             self.hosts[i].node.try_interval_replication();
         }
         self.rep.sim_time_ms += 35_000;
@@ -567,11 +622,30 @@ impl<'a> World<'a> {
                 Step::Trigger { node } => {
                     let i = *node as usize % self.hosts.len();
                     self.hosts[i].driver.verif_age(Duration::from_secs(35));
-                    self.snapshot_at_trigger(i);
-                    self.hosts[i].node.try_interval_replication();
+                            self.hosts[i].node.try_interval_replication();
                     self.rep.sim_time_ms += 35_000;
                     self.rep.log(format!("trigger interval replication at n{i}"));
                     self.drain().await;
+                }
+                Step::SetRange { node, sel } => {
+                    let i = *node as usize % self.hosts.len();
+                    let me = self.hosts[i].peer.to_bytes();
+                    let mut ds: Vec<[u8; 32]> = self.want.keys().map(|k| data::xor_distance(&me, k)).collect();
+                    ds.sort();
+                    if ds.is_empty() {
+                        self.rep.log("set range: no records yet");
+                    } else {
+                        let d = ds[*sel as usize % ds.len()];
+                        self.ranges[i] = Some(d);
+                        self.hosts[i].driver.verif_set_responsible_range(ant_evm::U256::from_be_bytes(d));
+                        self.rep.fault("responsible_range_set");
+                        self.rep.log(format!("n{i}: responsible range set to the distance of its {}-th closest record of {}", *sel as usize % ds.len() + 1, ds.len()));
+                    }
+                }
+                Step::DiskErr { node } => {
+                    let i = *node as usize % self.hosts.len();
+                    self.disk_err_armed[i] = true;
+                    self.rep.log(format!("n{i}: disk error armed for its next first-copy write of a replicated record"));
                 }
                 Step::Run { sel } => {
                     if !self.run_item(*sel).await {
